@@ -185,6 +185,25 @@ def systematic(tier, rng):
     behs.append(sweep_behaviour([R(GEN, "Gt", ["2"]), R(GEN, "Lt", ["5"]), R(GEN, "NotIn", ["3"])], "sel-gen-4", "invariant", sel={GEN: "4"}))
     behs.append(sweep_behaviour([R(ZONE, "Exists")], "sel-zone-b", "template", sel={ZONE: "zone-b"}))
     behs.append(sweep_behaviour([R(TEAM, "NotIn", ["a"])], "sel-team-c", "bump", sel={TEAM: "c"}))
+    # template labels on a well-known key; reserved capacity (claim labelled capacity-type=reserved + reservation id, later demoted)
+    behs.append(sweep_behaviour([], "tlabel-zone", "template", tlabels={ZONE: "zone-b"}))
+    behs.append(sweep_behaviour([R(CT, "In", ["spot", "on-demand"])], "tlabel-zone+ct", "invariant", tlabels={ZONE: "zone-a"}, static=True))
+    resv = [{"name": "small", "cpu": 2000, "arch": "amd64", "offs": [{"zone": "zone-a", "ct": "on-demand", "price": 100, "resv": ""},
+                                                                    {"zone": "zone-a", "ct": "reserved", "price": 1, "resv": "r1"},
+                                                                    {"zone": "zone-b", "ct": "spot", "price": 60, "resv": ""}]},
+            {"name": "large", "cpu": 8000, "arch": "amd64", "offs": [{"zone": "zone-b", "ct": "on-demand", "price": 400, "resv": ""},
+                                                                    {"zone": "zone-b", "ct": "reserved", "price": 2, "resv": "r2"}]}]
+    for i, (reqs, phase) in enumerate([([], "invariant"), ([R(CT, "In", ["reserved", "on-demand"])], "template"), ([R(CT, "NotIn", ["spot"])], "bump"),
+                                       ([R(CT, "Exists")], "restart-tick")]):
+        b = sweep_behaviour(reqs, "reserved-%d" % i, phase, static=(i == 2))
+        b["scn"]["types"] = resv
+        k8 = len(b["steps"])
+        # demotion: the reservation is lost, the provider relabels the claim on-demand
+        b["steps"] += [{"a": "EditClaim", "c": "s-0", "what": "label", "key": CT, "val": "on-demand"},
+                       {"a": "EditClaim", "c": "s-0", "what": "label", "key": "karpenter.test.sh/reservation-id", "val": "-"},
+                       {"a": "Tick", "d": 3700}, {"a": "DriftAll"}, {"a": "RemoveOffering", "t": "small", "zone": "zone-a", "ct": "on-demand"},
+                       {"a": "Restart"}, {"a": "DriftAll"}]
+        behs.append(b)
     # requirement drift: the pool's requirements move away from launched claims (and back)
     for i, (add, key) in enumerate([([R(TEAM, "In", ["a"])], TEAM), ([R(TEAM, "Exists")], TEAM), ([R(GEN, "Gt", ["2"])], GEN),
                                     ([R(ZONE, "In", ["zone-b"])], ZONE), ([R(CT, "NotIn", ["spot"])], CT), ([R(TYPE, "In", ["large"])], TYPE),
@@ -249,6 +268,7 @@ def tlc_parallel(run, jobs, par=4, workers=2, heap="3g", timeout=900):
 def record(run, behs, prefix, procs=8):
     """Replay behaviours on the real code with several driver processes; returns trace files (order = behs order per part)."""
     run.build_drv()
+    t0 = time.time()
     parts = vlib.shard(behs, procs)
 
     def one(i_part):
@@ -262,6 +282,7 @@ def record(run, behs, prefix, procs=8):
     with cf.ThreadPoolExecutor(max_workers=procs) as ex:
         for fl in ex.map(one, list(enumerate(parts))):
             files += fl
+    run.notes.append("replayed %d behaviours on the real code in %.1fs (%d driver processes)" % (len(behs), time.time() - t0, procs))
     return files
 
 
@@ -275,7 +296,8 @@ def scan(files):
             ev = json.loads(line)
             e = ev["e"]
             if e == "Cfg":
-                cur = {"tag": ev.get("tag", "-"), "drift": 0, "hash": 0, "launched": 0, "drifted": 0, "beh": ev.get("behJson", "")}
+                cur = {"tag": ev.get("tag", "-"), "drift": 0, "hash": 0, "launched": 0, "drifted": 0, "beh": ev.get("behJson", ""),
+                       "created": 0, "create_failed": 0}
                 out.append(cur)
                 launched = set()
             elif e == "Obs":
@@ -286,4 +308,6 @@ def scan(files):
                 cur["drift"] += 1
             elif e == "Begin" and ev["controller"] == "nodepool.hash":
                 cur["hash"] += 1
+            elif e == "Created":
+                cur["created" if ev["name"] != "-" else "create_failed"] += 1
     return out
